@@ -58,4 +58,5 @@ def run(ctx, res):
     lookup.rule_items_and_tokens(ctx, res)
     lookup.rule_endgame_covers(ctx, res)
     lookup.rule_round_nonempty(ctx, res)
+    lookup.rule_initial_pick(ctx, res)
     common.rule_send_transmits(ctx, res)
